@@ -984,7 +984,7 @@ static void on_abort(int) {
   }
   failop("crash", "abort() -- failed assertion or GALOIS_DIE");
 }
-static void on_death() { failop("crash", "sanitizer (ASan/UBSan) error report"); }
+__attribute__((unused)) static void on_death() { failop("crash", "sanitizer (ASan/UBSan) error report"); }
 
 static void set_ctx(const char* fmt, ...) __attribute__((format(printf, 1, 2)));
 static void set_ctx(const char* fmt, ...) {
